@@ -8,6 +8,8 @@ CONSTANTS
   PreFix = FALSE
   CoarseCancel = TRUE
   Modes = {"nowait", "wait"}
+  Modes2 = {"none"}
+  NeverExits = {}
 VIEW View
 SYMMETRY JobSymmetry
 INVARIANTS TypeOK ResultAtMostOnce ResultConsistent TimeoutIsUnknown CancelCoversRegistered ClosedMeansDead
